@@ -420,7 +420,7 @@ Section SocLocks.
   Proof. intros Hh. unfold Soc.block. lk. Qed.
   Hint Resolve lt_soc_create lt_soc_update lt_soc_delete lt_soc_follow lt_soc_add lt_soc_remove lt_soc_like lt_soc_undo lt_soc_block : lt.
   Lemma lt_post_outbox a h : entry s h -> K s (post_outbox cfg outbox raw perm a) h h.
-  Proof. intros Hh. unfold post_outbox. lk. Qed.
+  Proof. intros Hh. unfold post_outbox, soc_callbacks. lk. Qed.
 End SocLocks.
 #[export] Hint Resolve lt_post_outbox : lt.
 
